@@ -481,9 +481,9 @@ theorem walkInv_start (p1 p2 : Genome W) (nt : List (Trait W)) (nodes : List Nod
     (h : AccInv p1 p2 nt { nodes := nodes, genes := [] }) : WalkInv p1 p2 nt { nodes := nodes, genes := [] } l1 l2 :=
   ⟨h, by simp [GenesSorted], by simp, by simp⟩
 
-/-- **multipoint crossover preserves well-formedness** and retains the input/bias/output nodes of both parents -/
-theorem mateMultipoint_wf (g og : Genome W) (id : Int) (f1 f2 : W) (rs rs' : List Nat) (c : Genome W)
-    (hw1 : WFT g) (hw2 : WFT og) (hl : SameLineage g og)
+/-- multipoint crossover, under the node/trait part of the lineage hypothesis only -/
+theorem mateMultipoint_node (g og : Genome W) (id : Int) (f1 f2 : W) (rs rs' : List Nat) (c : Genome W)
+    (hw1 : WFT g) (hw2 : WFT og) (hl : NodeLineage g og)
     (h : mateMultipoint g og id f1 f2 rs = .ok (c, rs')) : WFT c ∧ Retains og c ∧ Retains g c := by
   unfold mateMultipoint at h
   split at h
@@ -506,9 +506,9 @@ theorem mateMultipoint_wf (g og : Genome W) (id : Int) (f1 f2 : W) (rs rs' : Lis
         · exact Or.inl ⟨rfl, hw1.wf.hasGene⟩
       exact child_wft g og nt acc id a b hne hw1 hw2 hl hids
 
-/-- **averaging multipoint crossover preserves well-formedness** -/
-theorem mateMultipointAvg_wf (g og : Genome W) (id : Int) (f1 f2 : W) (rs rs' : List Nat) (c : Genome W)
-    (hw1 : WFT g) (hw2 : WFT og) (hl : SameLineage g og)
+/-- averaging multipoint crossover, under the node/trait part of the lineage hypothesis only -/
+theorem mateMultipointAvg_node (g og : Genome W) (id : Int) (f1 f2 : W) (rs rs' : List Nat) (c : Genome W)
+    (hw1 : WFT g) (hw2 : WFT og) (hl : NodeLineage g og)
     (h : mateMultipointAvg g og id f1 f2 rs = .ok (c, rs')) : WFT c ∧ Retains og c ∧ Retains g c := by
   unfold mateMultipointAvg at h
   split at h
@@ -540,9 +540,9 @@ theorem mateMultipointAvg_wf (g og : Genome W) (id : Int) (f1 f2 : W) (rs rs' : 
     What is proved: the same under the additional hypothesis `SharedHead g og` (first genes carry the same innovation
     number), which holds in every population spawned from one genome. -/
 
-/-- **single-point crossover preserves well-formedness for parents that share their first gene** -/
-theorem C01_singlepoint_partial (g og : Genome W) (id : Int) (rs rs' : List Nat) (c : Genome W)
-    (hw1 : WFT g) (hw2 : WFT og) (hl : SameLineage g og) (hh : SharedHead g og)
+/-- single-point crossover, under the node/trait part of the lineage hypothesis and `SharedHead` -/
+theorem mateSinglePoint_node (g og : Genome W) (id : Int) (rs rs' : List Nat) (c : Genome W)
+    (hw1 : WFT g) (hw2 : WFT og) (hl : NodeLineage g og) (hh : SharedHead g og)
     (h : mateSinglePoint g og id rs = .ok (c, rs')) : WFT c ∧ Retains og c ∧ Retains g c := by
   unfold mateSinglePoint at h
   split at h
@@ -582,6 +582,24 @@ theorem C01_singlepoint_partial (g og : Genome W) (id : Int) (rs rs' : List Nat)
             acc rs2 hz hw2.wf.genesSorted hw1.wf.genesSorted (fun _ h => h) (fun _ h => h) hacc (by simp [GenesSorted])
             (by simp) (by simp) hwalk
           exact child_wft g og nt acc id a b (c (Or.inr ⟨y, ys, x, xs, hy, hx, hxy.symm⟩)) hw1 hw2 hl hids
+
+/-- **multipoint crossover preserves well-formedness** (parents of one lineage) -/
+theorem mateMultipoint_wf (g og : Genome W) (id : Int) (f1 f2 : W) (rs rs' : List Nat) (c : Genome W)
+    (hw1 : WFT g) (hw2 : WFT og) (hl : SameLineage g og)
+    (h : mateMultipoint g og id f1 f2 rs = .ok (c, rs')) : WFT c ∧ Retains og c ∧ Retains g c :=
+  mateMultipoint_node g og id f1 f2 rs rs' c hw1 hw2 (nodeLineage_of_sameLineage hl) h
+
+/-- **averaging multipoint crossover preserves well-formedness** (parents of one lineage) -/
+theorem mateMultipointAvg_wf (g og : Genome W) (id : Int) (f1 f2 : W) (rs rs' : List Nat) (c : Genome W)
+    (hw1 : WFT g) (hw2 : WFT og) (hl : SameLineage g og)
+    (h : mateMultipointAvg g og id f1 f2 rs = .ok (c, rs')) : WFT c ∧ Retains og c ∧ Retains g c :=
+  mateMultipointAvg_node g og id f1 f2 rs rs' c hw1 hw2 (nodeLineage_of_sameLineage hl) h
+
+/-- **single-point crossover preserves well-formedness for parents of one lineage that share their first gene** -/
+theorem C01_singlepoint_partial (g og : Genome W) (id : Int) (rs rs' : List Nat) (c : Genome W)
+    (hw1 : WFT g) (hw2 : WFT og) (hl : SameLineage g og) (hh : SharedHead g og)
+    (h : mateSinglePoint g og id rs = .ok (c, rs')) : WFT c ∧ Retains og c ∧ Retains g c :=
+  mateSinglePoint_node g og id rs rs' c hw1 hw2 (nodeLineage_of_sameLineage hl) hh h
 
 /-! ## spawning a population -/
 
